@@ -43,6 +43,13 @@ def regions(t):
             c = 1 if t[1] == "numpy.ones" else 0
             return (c, c, c)
         return (0, 1, 0) if t[2] in ((Pp,), (Pp, Pp)) else None
+    if t[0] == "ext" and t[1] == "numpy.tri" and t[2] and not (set(dict(t[3])) - {"k", "dtype"}):
+        # np.tri(N, M=None, k=0): ones at and below the k-th diagonal
+        kk = dict(t[3]).get("k", t[2][2] if len(t[2]) > 2 else ("const", 0))
+        sq = t[2][0] == Pp and (len(t[2]) == 1 or t[2][1] in (Pp, ("const", None)))
+        if sq and is_const(kk) and kk[1] in (0, -1):
+            return (1, 1 if kk[1] == 0 else 0, 0)
+        return None
     if t[0] == "ext" and t[1] in ("numpy.triu", "numpy.tril") and t[2]:
         b2, _ = api.bind_slots(api.SLOTS["numpy.triu"], list(t[2]), dict(t[3]))
         kk = b2.get("k")
@@ -63,6 +70,47 @@ def regions(t):
         r = regions(t[1])
         return None if r is None else (r[2], r[1], r[0])
     return None
+
+
+def subset_form(rep, f, mask):
+    """A = zeros((p, p)); A[fro[E], to[E]] = 1 with (fro, to) = np.triu_indices(p, k >= 1) and E = rng.choice(m, size=rng.binomial(m, q), replace=False):
+    a Binomial(m, q) number of distinct positions above the diagonal, uniformly chosen - the same law as m independent Bernoulli(q) indicators.
+    -> True when the form was recognised (and judged), False when it is something else"""
+    _, base, idx, val, aug = mask
+    if not (base[0] == "ext" and base[1] == "numpy.zeros" and base[2][:1] == (PP,) and idx[0] == "tuple" and len(idx[1]) == 2 and aug is None):
+        return False
+    r_, c_ = idx[1]
+    if not (r_[0] == "sub" and c_[0] == "sub" and r_[2] == c_[2] and r_[1][0] == "sub" and c_[1][0] == "sub" and r_[1][1] == c_[1][1]
+            and r_[1][1][0] == "ext" and r_[1][1][1] == "numpy.triu_indices"):
+        return False
+    ti, E = r_[1][1], r_[2]
+    b2, _ = api.bind_slots(["n", "k", "m"], list(ti[2]), dict(ti[3]))
+    kk = b2.get("k")
+    rows_cols = (is_const(r_[1][2], 0) and is_const(c_[1][2], 1))
+    rep.check("TRIU.strict", b2.get("n") == Pp and b2.get("m") in (None, Pp) and kk is not None and is_const(kk) and isinstance(kk[1], int) and kk[1] >= 1 and rows_cols and is_const(val, 1),
+              fwhere(f), "edges are stored at positions drawn from np.triu_indices(p, k=%s): strictly above the diagonal" % (kk[1] if kk else 0),
+              "edge positions come from %s with rows / columns %s: not strictly above the diagonal" % (fmt(ti)[:60], "in order" if rows_cols else "swapped"))
+    m_terms = [("ext", "len", (("sub", ti, ("const", 0)),), ()), ("ext", "len", (("sub", ti, ("const", 1)),), ())]
+    ok, why, q = False, "positions are chosen by %s" % fmt(E)[:80], None
+    if gen_call(E, "choice"):
+        sl, _ = api.bind_slots(api.GEN_SLOTS["choice"], list(E[3]), kwargs_of(E))
+        cnt = sl.get("size")
+        if sl.get("a") in m_terms and cnt is not None and gen_call(cnt, "binomial"):
+            sb, _ = api.bind_slots(api.GEN_SLOTS["binomial"], list(cnt[3]), kwargs_of(cnt))
+            if sb.get("n") in m_terms and sb.get("size") is None:
+                q = sb.get("p")
+                if sl.get("replace") == ("const", False):
+                    ok = True
+                else:
+                    why = "the Binomial(m, q) positions are drawn *with* replacement: repeated positions collapse into one edge, the graph has fewer edges than m independent Bernoulli(q) indicators"
+    if q is None and not ok:
+        rep.unk("BERNOULLI.idiom", fwhere(f), "edge positions are a random subset of the upper triangle drawn in a form these rules do not read: %s" % fmt(E)[:80])
+        return True
+    rep.check("BERNOULLI.idiom", ok, fwhere(f), "a Binomial(m, q) number of distinct positions above the diagonal, chosen uniformly: m independent Bernoulli(q) edge indicators", why)
+    if ok:
+        want = ratpoly(("binop", "/", ("param", "k"), ("binop", "-", Pp, ("const", 1))))
+        rep.check("BERNOULLI.probability", rat_equal(ratpoly(q), want), fwhere(f), "edge probability = k / (p - 1)", "edge probability is %s, not k/(p-1)" % fmt(q)[:80])
+    return True
 
 
 def strip_cast(t):
@@ -201,6 +249,8 @@ def analyse(rep, prog, name, full):
             rep.ok("MASK.full", fwhere(f, li_["node"]), "every entry above the diagonal is an edge")
         else:
             rep.unk("TRIU.strict", fwhere(f, li_["node"]), "the edge mask is built by a loop that is not read as the strict upper triangle")
+        return
+    if mask[0] == "store" and not full and subset_form(rep, f, mask):
         return
     if not (mask[0] == "ext" and mask[1] == "numpy.triu" and mask[2]):
         reg = regions(mask)
